@@ -2,7 +2,7 @@
 fault positions x small object family; after each failure the shared construction state must be idle and the object must
 behave like a pristine twin given the same random state."""
 import itertools
-from pyvc.contract import contract
+from pyvc.contract import contract, library_only
 
 
 def _depths():
@@ -155,6 +155,7 @@ def c_fault_positions(c, fault, with_list, srcinfo):
         ok = all(x[0] < x[1] and (x[0] != 1 or x[1] == 9) and x[2] < x[3] for x in got)
         c.check("later calls still enforce exactly the class constraints (no leftover temporary constraint)", ok, info=repr(got))
     except Exception as e:
+        library_only(e)
         c.check("later calls on the object raise nothing", False, info="%s: %s" % (type(e).__name__, e))
     c.check("the stacks are idle after normal use", _depths() == before)
     _reset()
